@@ -63,6 +63,8 @@ where
         let mut reply_streams = Vec::<ReplyStream<Service::ReplyStream, Listener::Socket>>::new();
         let mut last_reply_stream_winner = None;
         let mut last_method_call_winner = None;
+        // Whether a method call was served in the previous iteration.
+        let mut call_served = false;
 
         loop {
             let mut reply_stream_futures: Vec<_> =
@@ -71,6 +73,19 @@ where
             let mut reply_stream_select_all = SelectAll::new(start_index);
             for future in reply_stream_futures.iter_mut() {
                 reply_stream_select_all.push(future);
+            }
+
+            // Method calls are looked at before the reply streams below. So that a client that
+            // always has another call ready can not starve the streams (their replies would not
+            // go out and a connection whose stream has ended would never take calls again), the
+            // streams get their turn first after each call that was served.
+            if core::mem::take(&mut call_served) {
+                if let Some((idx, reply)) = (&mut reply_stream_select_all).now_or_never() {
+                    last_reply_stream_winner = Some(idx);
+                    Self::forward_stream_reply(&mut reply_streams, &mut connections, idx, reply)
+                        .await;
+                    continue;
+                }
             }
 
             futures_util::select_biased! {
@@ -87,6 +102,7 @@ where
                 ).fuse() => {
                         let (idx, call) = res?;
                         last_method_call_winner = Some(idx);
+                        call_served = true;
 
                         let mut stream = None;
                         let mut remove = true;
@@ -113,27 +129,39 @@ where
                 reply = reply_stream_select_all.fuse() => {
                     let (idx, reply) = reply;
                     last_reply_stream_winner = Some(idx);
-                    let id = reply_streams[idx].conn.id();
-
-                    match reply {
-                        Some(reply) => {
-                            if let Err(e) = reply_streams[idx]
-                                .conn
-                                .write_mut()
-                                .send_reply(&reply)
-                                .await
-                            {
-                                warn!("Error writing to client {}: {:?}", id, e);
-                                reply_streams.swap_remove(idx);
-                            }
-                        }
-                        None => {
-                            trace!("Stream closed for client {}", id);
-                            let stream = reply_streams.swap_remove(idx);
-                            connections.push(stream.conn);
-                        }
-                    }
+                    Self::forward_stream_reply(&mut reply_streams, &mut connections, idx, reply)
+                        .await;
                 }
+            }
+        }
+    }
+
+    /// Send a reply produced by reply stream `idx` to its client, or take the connection back
+    /// when the stream has ended.
+    async fn forward_stream_reply(
+        reply_streams: &mut Vec<ReplyStream<Service::ReplyStream, Listener::Socket>>,
+        connections: &mut Vec<Connection<Listener::Socket>>,
+        idx: usize,
+        reply: Option<Reply<Service::ReplyStreamParams>>,
+    ) {
+        let id = reply_streams[idx].conn.id();
+
+        match reply {
+            Some(reply) => {
+                if let Err(e) = reply_streams[idx]
+                    .conn
+                    .write_mut()
+                    .send_reply(&reply)
+                    .await
+                {
+                    warn!("Error writing to client {}: {:?}", id, e);
+                    reply_streams.swap_remove(idx);
+                }
+            }
+            None => {
+                trace!("Stream closed for client {}", id);
+                let stream = reply_streams.swap_remove(idx);
+                connections.push(stream.conn);
             }
         }
     }
